@@ -1823,8 +1823,6 @@ class Interp:
         outs = []
         for j, k_ in enumerate(rks):
             kk = parse_kind(k_)
-            if isinstance(kk, tuple) and kk[0] in ('list', 'array'):
-                raise EngineError('function_symbol with sequence result')
             F = z3.Function(f"{c['function_symbol']}{'' if len(rks) == 1 else j}", *[t.sort() for t in terms], sort_of(kk))
             outs.append(from_term(F(*terms), kk))
         return outs[0] if not isinstance(rk, (list, tuple)) else VTuple(outs)
